@@ -1,5 +1,8 @@
 import Zc.Proofs.Wire.Message
 import Zc.Proofs.Wire.Total
+import Zc.Model.Wire.Send
+import Zc.Proofs.Wire.Lone
+import Zc.GenFacts.Send
 /-! # C14 — outgoing messages respect size limits and account for every section entry
 
 Every datagram produced by the message builder is at most 8966 bytes, and at most 1460 bytes unless
@@ -204,6 +207,52 @@ theorem C14_tc_bit (m : Msg) (hwf : WFMsg m) (hfit : FitAll m) (pks : List Bytes
       decide
     · intro w hw; rw [hb w hw]; exact hno
 
+/-- **"… unless it carries a single entry that cannot be smaller".**  A datagram of more than 1460 bytes is exactly as long as
+the datagram that carries one entry of the message *alone*: the 12-byte header and that entry written at offset 12 with an
+empty names table (`questionAloneSize` / `recordAloneSize`) — nothing else is in it, and no datagram could carry that entry
+in fewer bytes.  Holds for every message for which the builder returns (no well-formedness needed: the 8966-byte allowance
+is only ever granted to the first entry tried in a fresh packet).  With `C14_sizes` (`entryCount w = 1`) this is the clause
+at full strength. -/
+theorem C14_large_is_lone_entry (m : Msg) (pks : List Bytes) (h : packets m = .ok pks) :
+    ∀ p ∈ pks, 1460 < p.length → LoneSize m p.length := by
+  intro p hp hbig
+  rcases packetsLoop_lone m _ _ pks h p hp with h1 | h1
+  · omega
+  · exact h1
+
+/-! ### the send path: `Zeroconf.async_send` (anchored mechanism "async_send drops packets above the absolute limit") -/
+
+/-- nothing is dropped when every datagram is at most 8966 bytes long — a datagram of **exactly** 8966 bytes leaves -/
+theorem asyncSend_all (pks : List Bytes) (h : ∀ p ∈ pks, p.length ≤ 8966) : Send.asyncSend pks = pks := by
+  induction pks with
+  | nil => rfl
+  | cons p rest ih =>
+    have hp : Gen.Send.send_drops p.length = false := by
+      cases hd : Gen.Send.send_drops p.length with
+      | false => rfl
+      | true =>
+        have := (GenFacts.Send.send_drops_iff p.length).mp hd
+        have := h p (by simp)
+        omega
+    simp only [Send.asyncSend, hp]
+    rw [ih (fun q hq => h q (by simp [hq]))]
+    rfl
+
+/-- **Every datagram the builder makes is sent.**  For a message inside the quantifier the size guard of
+`Zeroconf.async_send` never fires: the datagrams that leave are exactly the builder's, in order — so "each question and
+record appears in exactly one datagram of the sequence" holds of the *transmitted* sequence too (`C14_partition`). -/
+theorem C14_send_all (m : Msg) (hwf : WFMsg m) (hfit : FitAll m) (pks : List Bytes) (h : packets m = .ok pks) :
+    Send.asyncSend pks = pks :=
+  asyncSend_all pks (fun p hp => (C14_sizes m hwf hfit pks h p hp).1)
+
+/-- the guard is exact: a datagram of 8967 bytes is dropped together with everything behind it (the builder never makes
+one — `C14_sizes` — so this is the degraded behaviour for entries outside the quantifier only) -/
+example (p q : Bytes) (rest : List Bytes) (hp : p.length = 8966) (hq : q.length = 8967) :
+    Send.asyncSend (p :: q :: rest) = [p] := by
+  have h1 : Gen.Send.send_drops p.length = false := by rw [hp]; decide
+  have h2 : Gen.Send.send_drops q.length = true := by rw [hq]; decide
+  simp [Send.asyncSend, h1, h2]
+
 /-! ### non-vacuity: messages that really split / really exceed 1460 bytes -/
 
 def exT : WName := [[95, 104], [95, 116], [108]]          -- _h._t.l
@@ -232,5 +281,22 @@ example : WFMsg exBig ∧ FitAll exBig :=
    ⟨by decide +kernel, by decide +kernel, by decide +kernel, by decide +kernel⟩⟩
 example : (packets exBig).toOption.map (fun pks => pks.map (fun p => (decide (1460 < p.length), (Strict.decode p).map (fun w => (w.flags, entryCount w))))) =
     some [(true, some (0x8400, 1))] := by decide +kernel
+
+/-- … and that datagram is exactly as long as the one entry alone (`C14_large_is_lone_entry` observed) -/
+example : (packets exBig).toOption.map (fun pks => pks.map List.length) =
+    some [recordAloneSize true (⟨[97] :: exT, 16, 1, true, 4500, 0, .txt (exBlob 5000 1)⟩, 0)] := by decide +kernel
+
+/-- a response whose single TXT answer makes a datagram of **exactly 8966 bytes** (12 header + 11 owner name + 10 fixed +
+8933 rdata) followed by a small second answer: two datagrams, both leave `async_send` -/
+def exLimit : Msg :=
+  { flags := 0x8400, id := 0, multicast := true, questions := [],
+    answers := [(⟨[97] :: exT, 16, 1, true, 4500, 0, .txt (exBlob 8933 1)⟩, 0), (⟨[98] :: exT, 1, 1, true, 120, 0, .addr [10, 0, 0, 7]⟩, 0)],
+    authorities := [], additionals := [] }
+
+example : WFMsg exLimit ∧ FitAll exLimit :=
+  ⟨⟨by decide +kernel, by decide +kernel, by decide +kernel, by decide +kernel⟩,
+   ⟨by decide +kernel, by decide +kernel, by decide +kernel, by decide +kernel⟩⟩
+example : (packets exLimit).toOption.map (fun pks => (pks.map List.length, (Send.asyncSend pks).map List.length)) =
+    some ([8966, 37], [8966, 37]) := by decide +kernel
 
 end Zc
